@@ -22,7 +22,7 @@ func init() {
 	fw.Register(&fw.Check{
 		ID:    "C05",
 		Level: "exploration",
-		Rule: "cases: for each of 8 list kinds (block statements, case-clause bodies, composite-literal elements, call arguments, struct fields, parenthesised value specs, and composite-literal elements / call arguments that are package-qualified identifiers restored with import management) and n = 1..3 " +
+		Rule: "cases: for each of 10 list kinds (block statements, statements of mixed kinds, bare break / continue statements, case-clause bodies, composite-literal elements, call arguments, struct fields, parenthesised value specs, and composite-literal elements / call arguments that are package-qualified identifiers restored with import management) and n = 1..3 " +
 			"elements (n = 4 and seeded longer lists in the thorough tier), EVERY assignment of None/NewLine/EmptyLine to Before/After of every element (3^(2n), exhaustive), combined with " +
 			"each comment pattern: none, End line comment, Start line comment, End \"\\n\", End \"\\n\\n\", End line comment + Start line comment. Reference model written from the " +
 			"statement: adjacent After/Before combine by max; one blank line iff that max is EmptyLine (or two explicit \"\\n\" decorations were given), none otherwise; Before of the first " +
@@ -35,7 +35,7 @@ func init() {
 			"top-level declarations are excluded: go/printer forces blank lines between declarations of different kinds regardless of positions",
 			"struct fields and parenthesised specs: gofmt strips blank lines directly after '{'/'(' and before '}'/')', so only between-element blank lines are asserted there",
 		},
-		Required: map[string]int{"list_kinds": 8, "patterns": 9},
+		Required: map[string]int{"list_kinds": 10, "patterns": 9},
 	})
 }
 
@@ -47,6 +47,7 @@ type c05Kind struct {
 	exprList  bool // elements are expressions: own line only with NewLine spacing
 	stmtLevel bool
 	imports   bool // elements are package-qualified identifiers: decorated and restored with import management
+	keywords  bool // elements are bare break / continue statements (located by keyword, not by name)
 	// openDecs returns the decoration list that sits directly after the opening delimiter of the
 	// container (BlockStmt.Lbrace, CompositeLit.Lbrace, CallExpr.Lparen, CaseClause.Colon ...)
 	openDecs func(f *dst.File) *dst.Decorations
@@ -75,6 +76,42 @@ var c05Kinds = []c05Kind{
 				out = append(out, s)
 			}
 			return out
+		}},
+	{name: "mixed-statements", edges: true, stmtLevel: true,
+		// statements of different kinds (and widths): call, inc/dec, go, defer, define, declaration, send, assignment
+		tmpl: func(n int) string {
+			forms := []string{"%s()", "%s++", "go %s()", "defer %s()", "%s := 1", "var %s int", "%s <- 1", "%s = 2", "%s--"}
+			s := "package p\n\nfunc f() {\n"
+			for i, e := range names(n) {
+				s += "\t" + fmt.Sprintf(forms[i%len(forms)], e) + "\n"
+			}
+			return s + "}\n"
+		},
+		elems: func(f *dst.File, n int) []dst.Node {
+			var out []dst.Node
+			for _, s := range f.Decls[0].(*dst.FuncDecl).Body.List {
+				out = append(out, s)
+			}
+			return out
+		}},
+	{name: "branch-statements", edges: true, stmtLevel: true, keywords: true,
+		// bare break / continue: elements without an identifier, found by their keyword
+		tmpl: func(n int) string {
+			s := "package p\n\nfunc f() {\n\tfor {\n"
+			for i := range names(n) {
+				s += "\t\t" + []string{"break", "continue"}[i%2] + "\n"
+			}
+			return s + "\t}\n}\n"
+		},
+		elems: func(f *dst.File, n int) []dst.Node {
+			var out []dst.Node
+			for _, s := range f.Decls[0].(*dst.FuncDecl).Body.List[0].(*dst.ForStmt).Body.List {
+				out = append(out, s)
+			}
+			return out
+		},
+		openDecs: func(f *dst.File) *dst.Decorations {
+			return &f.Decls[0].(*dst.FuncDecl).Body.List[0].(*dst.ForStmt).Body.Decs.Lbrace
 		}},
 	{name: "case-body", edges: false, stmtLevel: true,
 		tmpl: func(n int) string {
@@ -195,7 +232,7 @@ func init() {
 	for i := range c05Kinds {
 		k := &c05Kinds[i]
 		switch k.name {
-		case "block-statements":
+		case "block-statements", "mixed-statements":
 			k.openDecs = func(f *dst.File) *dst.Decorations { return &f.Decls[0].(*dst.FuncDecl).Body.Decs.Lbrace }
 		case "case-body":
 			k.openDecs = func(f *dst.File) *dst.Decorations {
@@ -326,8 +363,19 @@ func c05Case(c *fw.Ctx, kind c05Kind, n int, pattern string, sp []dst.SpaceType,
 	line := map[string]int{}
 	closeLine, openLine := 0, 0
 	depthOpen := false
+	elemTok := map[string]int{}
+	kwSeen := 0
 	for i, t := range toks {
-		if t.Tok == token.IDENT && strings.HasPrefix(t.Lit, "elem") {
+		if kind.keywords && (t.Tok == token.BREAK || t.Tok == token.CONTINUE) {
+			kwSeen++
+			name := fmt.Sprintf("elem%d", kwSeen)
+			line[name] = t.Line
+			elemTok[name] = i
+		}
+		if !kind.keywords && t.Tok == token.IDENT && strings.HasPrefix(t.Lit, "elem") {
+			if _, seen := elemTok[t.Lit]; !seen {
+				elemTok[t.Lit] = i
+			}
 			line[t.Lit] = t.Line
 		}
 		if t.Tok == token.COMMENT {
@@ -339,8 +387,8 @@ func c05Case(c *fw.Ctx, kind c05Kind, n int, pattern string, sp []dst.SpaceType,
 		_ = i
 	}
 	// delimiters: the line of the opening token directly before elem1 and of the closing token after the last element
-	for i, t := range toks {
-		if t.Tok == token.IDENT && t.Lit == "elem1" && !depthOpen {
+	for i := range toks {
+		if first, ok := elemTok["elem1"]; ok && i == first && !depthOpen {
 			for j := i - 1; j >= 0; j-- {
 				if toks[j].Tok == token.LBRACE || toks[j].Tok == token.LPAREN || toks[j].Tok == token.COLON {
 					openLine = toks[j].Line
@@ -351,8 +399,8 @@ func c05Case(c *fw.Ctx, kind c05Kind, n int, pattern string, sp []dst.SpaceType,
 		}
 	}
 	lastName := fmt.Sprintf("elem%d", n)
-	for i, t := range toks {
-		if t.Tok == token.IDENT && t.Lit == lastName {
+	for i := range toks {
+		if lt, ok := elemTok[lastName]; ok && i == lt {
 			depth := 0
 			for j := i + 1; j < len(toks); j++ {
 				switch toks[j].Tok {
@@ -512,12 +560,16 @@ func c05EdgeCalibration(kind c05Kind) (open, close bool) {
 	src := kind.tmpl(2)
 	lines := strings.Split(src, "\n")
 	// find the lines of elem1 and elem2
+	m1, m2 := "elem1", "elem2"
+	if kind.keywords {
+		m1, m2 = "break", "continue"
+	}
 	i1, i2 := -1, -1
 	for i, l := range lines {
-		if strings.Contains(l, "elem1") {
+		if strings.Contains(l, m1) {
 			i1 = i
 		}
-		if strings.Contains(l, "elem2") {
+		if strings.Contains(l, m2) {
 			i2 = i
 		}
 	}
@@ -532,7 +584,7 @@ func c05EdgeCalibration(kind c05Kind) (open, close bool) {
 	open = keeps(withBlank(i1), func(out string) bool {
 		ol := strings.Split(out, "\n")
 		for i, l := range ol {
-			if strings.Contains(l, "elem1") {
+			if strings.Contains(l, m1) {
 				return i > 0 && strings.TrimSpace(ol[i-1]) == ""
 			}
 		}
@@ -541,7 +593,7 @@ func c05EdgeCalibration(kind c05Kind) (open, close bool) {
 	close = keeps(withBlank(i2+1), func(out string) bool {
 		ol := strings.Split(out, "\n")
 		for i, l := range ol {
-			if strings.Contains(l, "elem2") {
+			if strings.Contains(l, m2) {
 				return i+1 < len(ol) && strings.TrimSpace(ol[i+1]) == ""
 			}
 		}
